@@ -194,10 +194,19 @@ func c04run(out *rec.Out, c c04case, rng *rec.Rng, stats map[string]int) {
 	} else {
 		f := g.Add("parallelGateway", "fork", "")
 		g.Connect(st, f, nil)
+		// half of the concurrent cases: the tokens meet in a MERGING exclusive gateway first and reach the gateway under
+		// test over ONE incoming flow — more tokens probing it at once than it has incoming flows
+		into := x
+		if c.conc > 0 && (c.c+c.toks+c.truth)%2 == 1 {
+			m := g.Add("exclusiveGateway", "M", "")
+			g.Connect(m, x, nil)
+			into = m
+			stats["tokens_over_one_incoming_flow"]++
+		}
 		for i := 0; i < c.toks; i++ {
 			a := g.Add("task", fmt.Sprintf("A%d", i), "")
 			g.Connect(f, a, nil)
-			g.Connect(a, x, nil)
+			g.Connect(a, into, nil)
 		}
 	}
 	// a third of the single-token cases are written in XPath (the definitions' expression language and every condition)
